@@ -308,8 +308,10 @@ def gen_sample_triangle(rng, positive=False):
     kinds = rng.sample(["B", "scalar", "float", "len1", "none"], rng.randint(1, 4))
     # HARDENING F/G/I/J: NumPy corner types (narrow dtypes, bool samples, big int64 / float64 scalars, 0-d arrays,
     # strided views), a field that only appears in later cells, restated cells, nested / overlapping periods
-    extra = ["f32", "i32", "strided", "bigint", "npfloat"] + ([] if positive else ["boolarr", "zero_d", "late"])
+    extra = ["f32", "i32", "strided", "bigint", "npfloat", "bigsamples"] + ([] if positive else ["boolarr", "zero_d", "late"])
     kinds += rng.sample(extra, rng.choice([0, 0, 1, 2]))
+    if rng.random() < 0.15:
+        kinds.append("bigsamples")
     cf = coord_forms(rng)
     if rng.random() < 0.12:                    # nested / overlapping / semi-monthly periods sharing a start or an end
         base_rows = rows[:2]
@@ -346,6 +348,8 @@ def gen_sample_triangle(rng, positive=False):
                     vals["open_count"] = np.repeat(a, 2)[::2]                       # a non-contiguous view
                 if "bigint" in kinds:
                     vals["closed_count"] = np.int64(2**60 + int(a[0]))
+                if "bigsamples" in kinds:      # whole currency units of a large portfolio: squares overflow int64 (> 3.04e9)
+                    vals["closed_loss"] = a * 1_000_003 + 3_100_000_000
                 if "npfloat" in kinds:
                     vals["earned_exposure"] = np.float64(a[0] / 4)
                 if "zero_d" in kinds:
